@@ -1,5 +1,5 @@
 #!/venv/bin/python
-"""Standalone reproducers of the defects found in medialab/hyphe-traph (F1..F11).
+"""Standalone reproducers of the defects found in medialab/hyphe-traph (F1..F12).
 usage: repro.py F1 [repo_path]   exit 0 = property holds on that input, 1 = defect shown."""
 import os, shutil, sys, tempfile, warnings
 repo = sys.argv[2] if len(sys.argv) > 2 else "/repo"
@@ -189,6 +189,24 @@ def F11():
     got = set(map(tuple, res[0]))
     print("interleaved outbound page-link query:", sorted(got), " uninterrupted at the %d moments:" % len(moments), [sorted(m) for m in moments])
     return got <= set().union(*moments)
+
+def F12():
+    # an in-memory index created with the default flags ignores the creation rules given to the constructor
+    # (Traph.__init__: create = overwrite, although a memory index is always new), a fresh on-disk one applies them
+    rules = {b"s:http|h:com|h:twitter|": rule_regex(2)}
+    page = b"s:http|h:com|h:twitter|p:alice|"
+    d = tempfile.mkdtemp()
+    try:
+        disk = Traph(folder=d, default_webentity_creation_rule=rule_regex(0), webentity_creation_rules=rules)
+        mem = Traph(folder=None, default_webentity_creation_rule=rule_regex(0), webentity_creation_rules=rules)
+        a = sorted(sorted(v) for v in disk.add_page(page).created_webentities.values())
+        b = sorted(sorted(v) for v in mem.add_page(page).created_webentities.values())
+        disk.close()
+        print("created on disk :", a)
+        print("created in memory:", b)
+        return a == b
+    finally:
+        shutil.rmtree(d, ignore_errors=True)
 
 if __name__ == "__main__":
     ok = globals()[sys.argv[1]]()
